@@ -188,6 +188,24 @@ func merge[EntityT entity.Interface](def Definition, wrapper func(e *Entity) Ent
 		return entity.NewMergeUpdatedStatus(id, remoteEntity)
 	}
 
+	// The two histories need to be related (that is, share at least their root commit), otherwise
+	// joining them would create an Entity with two roots that can't be read anymore.
+	related := false
+	localSet := make(map[repository.Hash]struct{}, len(localCommits))
+	for _, hash := range localCommits {
+		localSet[hash] = struct{}{}
+	}
+	for _, hash := range remoteCommits {
+		if _, ok := localSet[hash]; ok {
+			related = true
+			break
+		}
+	}
+	if !related {
+		return entity.NewMergeInvalidStatus(id,
+			fmt.Sprintf("remote %s history is unrelated to the local one", def.Typename))
+	}
+
 	// SCENARIO 5
 	// if both local and remote Entity have new commits (that is, we have a concurrent edition),
 	// a merge commit with an empty operationPack is created to join both branch and form a DAG.
